@@ -145,6 +145,17 @@ def r1(ctx):
             why = "type %s; per root: %s, %s[%s], [%s]" % (term_str(a[0])[:20], term_sig(hs)[:40], cs, rng2, rng3)
         ctx.check(P, rule, "tree pre-image = [ROOT_TYPE] then per root [hash][u64le index][u64le length]", good, "type byte once, then hash, index, length for every root in order", "Hash::tree feeds %s" % why, key="C05|C05.R1|Hash::tree|pre-image")
         it = [s for s in sites(fa, "std::iter::Iterator::next")]
+        if it and len(ups) == 4 and loops:
+            # every root obtained from the iterator is hashed: no path from `Some(node)` back to the
+            # next iteration (or out of the loop) avoids the three updates
+            sw = [x for x in switch_edges_on(fa, lambda o: o[0] == "disc" and it[0] in call_root_bb(o[1]))]
+            skip = True
+            if sw:
+                some_t = sw[0][2].get(1)
+                skip = some_t is None or any(fa.can_reach(some_t, it[0], avoiding=[u]) for u in ups[1:])
+            ctx.check(P, rule, "every root contributes to the tree hash", not skip, "each iteration performs the three updates unconditionally",
+                      "Hash::tree can move on to the next root (or finish) without hashing the current one: a conditional skip inside the per-root loop changes the signed root hash for some root sets",
+                      [site_desc(fa, it[0])], key="C05|C05.R1|Hash::tree|root skipped")
         ctx.check(P, rule, "tree hash visits the roots in the given order", bool(it) and strip(fa.arg_origin(it[0], 0)) == ("param", "roots"), "for node in roots", "root iteration is not the plain order of `roots`")
 
 
